@@ -539,6 +539,33 @@ def normalize_string_facts(repo):
     return table, render, py2v.src_hash(fn, src)[:12]
 
 
+def time_facts(base_tree):
+    """Which of the three dialects each time-format helper of _BaseSession uses.  Every `self.<x>_dialect.<member>` read inside
+    default_time_format / format_time / format_execution_time is listed as (method:member, dialect); anything else is refused."""
+    out = []
+    for meth, allowed in (("default_time_format", {"TIME_FORMAT"}), ("format_time", {"format_time"}),
+                          ("format_execution_time", {"TIME_FORMAT", "generator", "format_time"})):
+        fn = py2v.find_method(base_tree, "_BaseSession", meth)
+        seen = []
+        for n in ast.walk(fn):
+            if isinstance(n, ast.Attribute):
+                d = dotted(n.value)
+                if d in ("self.input_dialect", "self.output_dialect", "self.execution_dialect"):
+                    if n.attr not in allowed:
+                        raise Untranslatable(f"{meth}: reads {d}.{n.attr}")
+                    seen.append((f"{meth}:{n.attr}", dexp(n.value)))
+            elif isinstance(n, ast.Name) and n.id in ("input_dialect", "output_dialect", "execution_dialect"):
+                raise Untranslatable(f"{meth}: bare dialect name {n.id}")
+        got = sorted(k for k, _ in seen)
+        want = {"default_time_format": ["default_time_format:TIME_FORMAT"], "format_time": ["format_time:format_time"],
+                "format_execution_time": ["format_execution_time:TIME_FORMAT", "format_execution_time:format_time",
+                                          "format_execution_time:generator"]}[meth]
+        if got != want:
+            raise Untranslatable(f"{meth}: dialect reads {got}, expected {want}")
+        out += sorted(seen)
+    return out
+
+
 def dfsql_facts(df_tree):
     fn = [n for n in py2v.find_class(df_tree, "BaseDataFrame").body
           if isinstance(n, ast.FunctionDef) and n.name == "sql" and "t.overload" not in _decos(n)]
@@ -670,6 +697,7 @@ def find_in_mro(mro: list, name: str):
 def function_table(repo):
     tree, src = _load(repo, "sqlframe/base/functions.py")
     table: dict[str, object] = {}
+    sensitive: set = set()
     flag_reads = {f: 0 for f in FLAGS}
     for st in tree.body:
         if isinstance(st, ast.FunctionDef):
@@ -695,6 +723,10 @@ def function_table(repo):
                     raise Untranslatable(f"{st.name}: decorator {ast.dump(d)[:50]}")
             table[st.name] = uns
             for n in ast.walk(st):
+                if isinstance(n, ast.Call) and dotted(n.func) in ("_get_session", "get_func_from_session", "_BaseSession") \
+                        or isinstance(n, ast.ImportFrom) and n.module == "sqlframe.base.function_alternatives":
+                    sensitive.add(st.name)
+            for n in ast.walk(st):
                 if isinstance(n, ast.Attribute) and n.attr.startswith("_is_"):
                     if n.attr not in flag_reads:
                         raise Untranslatable(f"{st.name} reads unknown flag {n.attr}")
@@ -704,6 +736,8 @@ def function_table(repo):
             if st.value.id not in table:
                 raise Untranslatable(f"alias {st.targets[0].id} = {st.value.id}: unknown function")
             table[st.targets[0].id] = table[st.value.id]
+            if st.value.id in sensitive:
+                sensitive.add(st.targets[0].id)
         elif isinstance(st, (ast.Import, ast.ImportFrom)) or _doc(st):
             continue
         elif isinstance(st, ast.If) and dotted(st.test) == "t.TYPE_CHECKING":
@@ -716,7 +750,23 @@ def function_table(repo):
         for ch in name:
             if not (32 <= ord(ch) < 127):
                 raise Untranslatable(f"function name {name!r}")
-    return table, flag_reads, py2v.src_hash(tree, src)[:12] if False else str(len(src))
+    # transitive: a function that calls (by name) a sensitive function of this module is sensitive too
+    calls = {}
+    for st in tree.body:
+        if isinstance(st, ast.FunctionDef):
+            calls[st.name] = {n.func.id for n in ast.walk(st) if isinstance(n, ast.Call) and isinstance(n.func, ast.Name)
+                              and n.func.id in table and n.func.id != st.name}
+    changed = True
+    while changed:
+        changed = False
+        for f, cs in calls.items():
+            if f not in sensitive and cs & sensitive - {"col", "lit"}:
+                sensitive.add(f)
+                changed = True
+    for st in tree.body:
+        if isinstance(st, ast.Assign) and isinstance(st.value, ast.Name) and st.value.id in sensitive:
+            sensitive.add(st.targets[0].id)
+    return table, flag_reads, sorted(sensitive)
 
 
 def engine_filter(repo, e):
@@ -951,6 +1001,9 @@ def generate(repo: str):
     per_engine("collect_of", "option impl", coll_of)
     per_engine("fetchdf_of", "option impl", fdf_of)
     per_engine("names_of_engine", "option (dexp * string * string)", {e: names_coq(n) for e, n in names_of.items()})
+    tfacts = time_facts(base["tree"])
+    L.append("Definition time_facts : list (string * dexp) := " + listlit([f"({strlit(k)}, {v})" for k, v in tfacts]) + ".")
+    facts.append({"name": "time_facts", "from": "base/session.py: default_time_format, format_time, format_execution_time", "value": tfacts})
     L.append("Definition plumbing_facts : pfacts := mkPfacts " + " ".join([
         ts_from, ts_to, render, dfsql,
         listlit([f"({strlit(k)}, {v})" for k, v in table]),
@@ -965,7 +1018,7 @@ def generate(repo: str):
     ]
 
     # ---- functions
-    ftable, flag_reads, _ = function_table(repo)
+    ftable, flag_reads, sensitive = function_table(repo)
     filters = {e: engine_filter(repo, e) for e in ENGINES}
     module_by, reject_by, d_hash = dispatch_facts(repo)
     L.append("Definition fn_table : list (string * option (list string)) := [")
@@ -982,10 +1035,11 @@ def generate(repo: str):
         {"name": "fn_filter", "from": "<engine>/functions.py", "value": filters},
         {"name": "get_func_from_session", "hash": d_hash, "value": {"module_by": module_by, "reject_by": reject_by}},
         {"name": "_is_<engine> reads in base/functions.py", "value": flag_reads},
+        {"name": "engine-sensitive functions (read the session / an alternative / another dispatched function)", "value": len(sensitive)},
     ]
     info = {"functions": ftable, "filters": filters, "engines": {e: {k: v for k, v in eng[e].items()
                                                                   if k in ("flags", "sanitize", "builder")} for e in ENGINES},
-            "pairs": base["pairs"], "base": {k: base[k] for k in ("flags", "sanitize", "builder")},
+            "sensitive": sensitive, "pairs": base["pairs"], "base": {k: base[k] for k in ("flags", "sanitize", "builder")},
             "actions": action_fact}
     return "\n".join(L) + "\n", facts, info
 
